@@ -577,9 +577,18 @@ pub fn judge_call(shape: Shape, script: &Script, view: &ClientView) -> Vec<(Stri
     let streaming_resp = matches!(shape, Shape::ServerStream | Shape::Bidi);
     let fails_at_call = script.end.is_some() && (!streaming_resp || script.fail_up_front);
     if fails_at_call {
-        match &view.call_err {
-            Some(got) => status_eq(script.end.as_ref().unwrap(), got, &mut dev, "call error"),
-            None => dev.push(("error-swallowed".into(), format!("handler failed with code {} but the call returned Ok", script.end.as_ref().unwrap().code))),
+        let want = script.end.as_ref().unwrap();
+        match (&view.call_err, &view.end) {
+            (Some(got), _) => status_eq(want, got, &mut dev, "call error"),
+            // where a streaming response surfaces a failure that precedes every message - from
+            // the call itself or as the first item of the stream - is not constrained
+            (None, Some(Err(got))) if streaming_resp => {
+                if !view.msgs.is_empty() {
+                    dev.push(("messages-extra".into(), format!("client saw {} messages although the handler failed before producing any", view.msgs.len())));
+                }
+                status_eq(want, got, &mut dev, "stream error");
+            }
+            (None, _) => dev.push(("error-swallowed".into(), format!("handler failed with code {} but the call returned Ok", want.code))),
         }
         return dev;
     }
